@@ -41,10 +41,10 @@ func C02(r *core.Report) {
 		}
 	}
 	r.Floor("C02.R1", 6)
-	r.Floor("C02.R2", 3)
-	r.Floor("C02.R3", 3)
+	r.Floor("C02.R2", 2)
+	r.Floor("C02.R3", 2)
 	r.Floor("C02.R4", 2)
-	r.Floor("C02.R6", 7)
+	r.Floor("C02.R6", 5)
 }
 
 func stripConvs(info *types.Info, e ast.Expr) ast.Expr {
